@@ -254,3 +254,61 @@ def boundary_values(rng, s, nw, nf, count):
         elif len(out) == 0 and rng.random() < 0.05:
             out.append(Fraction(0))
     return out
+
+# ---------------------------------------------------------------------------------
+# the common comparison: implementation vs Spec (property predicate) vs model
+# ---------------------------------------------------------------------------------
+from lib import model_call
+def spec_list_request(case):
+    return [4] + e_fmt(case['s'], case['nw'], case['nf']) + [RMODES.index(case['r']), OMODES.index(case['o'])] + \
+           e_list([Fraction(v) for v in case['vals']], e_dy)
+
+def check_store_cases(cases, res, stratum, pid, huge=False):
+    """run implementation, Spec and model on the cases; record failures"""
+    impl_out = [run_impl_store(c) for c in cases]
+    reqs = []
+    for c in cases:
+        reqs.append(spec_list_request(c))
+        reqs.append(model_store_request(c))
+    outs = model_call(reqs)
+    for i, c in enumerate(cases):
+        io = impl_out[i]
+        sp = Reader(outs[2 * i]); spec_codes = sp.lst(sp.z)
+        mo = read_model_store(outs[2 * i + 1])
+        nf = c['nf']
+        exact_vals = [Fraction(v) for v in c['vals']]
+        nontrivial = any(Fraction(sc) / Fraction(2) ** nf != v for sc, v in zip(spec_codes, exact_vals))
+        res.count(stratum, key=(c['s'], c['nw'], c['nf'], c['r'], c['o'], c['carrier'], c['route'], tuple(c['vals'])), nontrivial=nontrivial, n=len(c['vals']))
+        res.sample({k: c[k] for k in ('s', 'nw', 'nf', 'r', 'o', 'carrier', 'route')} | {'vals': c['vals'][:6], 'codes': spec_codes[:6]})
+        small = dict(c); small['vals'] = list(c['vals'])
+        if 'exc' in io:
+            res.fail(small, pid + ': storing an in-domain value raised %s' % io['exc'], expected=spec_codes[:20], got=io.get('msg'))
+            continue
+        if io['codes'] != spec_codes:
+            j = next(k for k in range(len(spec_codes)) if k >= len(io['codes']) or io['codes'][k] != spec_codes[k])
+            one = dict(small); one['vals'] = [c['vals'][j]]; one['index_in_original'] = j
+            res.fail(one, pid + ': stored code differs from OVERFLOW(ROUND(v*2^n_frac))', expected=spec_codes[j], got=io['codes'][j] if j < len(io['codes']) else None)
+            continue
+        want_back = [Fraction(cd) / Fraction(2) ** nf for cd in io['codes']]
+        if io['getval'] != want_back or io['asfloat'] != want_back:
+            res.fail(small, pid + ': value read back is not code*2^-n_frac', expected=[str(w) for w in want_back[:8]], got=[str(w) for w in io['getval'][:8]])
+            continue
+        want_shape = case_shape(c)
+        if want_shape is not None and tuple(io['shape']) != tuple(want_shape):
+            res.fail(small, pid + ': shape of the stored array differs from the input', expected=want_shape, got=io['shape'])
+            continue
+        if not huge:
+            if mo['kind'] != 'ok':
+                res.fail(small, 'model set_val_real is %s on an in-domain input (model no longer reflects the domain)' % mo['kind'], got=mo.get('exc'))
+                res.failures[-1]['no_input'] = True
+            elif mo['codes'] != io['codes'] or mo['back'] != want_back:
+                res.fail(small, 'model set_val_real disagrees with the implementation although the Spec agrees', expected=mo['codes'][:8], got=io['codes'][:8])
+                res.failures[-1]['no_input'] = True
+
+def case_shape(c):
+    n = len(c['vals']); name = c['carrier']
+    if c['route'] == 'setitem': return (n,)
+    if name in ('pyint', 'pyfloat', 'str') or name.startswith('scalar:'): return ()
+    if name in ('nested', 'arr2d'): return (2, n // 2)
+    return (n,)
+
